@@ -255,6 +255,13 @@ func c07Pad(c *rtr.Case, target []int, beforeLast bool) (rtr.Case, bool) {
 // and all segments long at once (64 hops spread evenly).
 func c07LongProfiles(lens []int) [][]int {
 	var out [][]int
+	seen := map[string]bool{}
+	add := func(p []int) {
+		if k := fmt.Sprint(p); !seen[k] {
+			seen[k] = true
+			out = append(out, p)
+		}
+	}
 	total := 0
 	for _, l := range lens {
 		total += l
@@ -270,7 +277,7 @@ func c07LongProfiles(lens []int) [][]int {
 			}
 			p := append([]int{}, lens...)
 			p[i] = t
-			out = append(out, p)
+			add(p)
 		}
 	}
 	if len(lens) > 1 {
@@ -292,7 +299,7 @@ func c07LongProfiles(lens []int) [][]int {
 					}
 				}
 			}
-			out = append(out, even)
+			add(even)
 		}
 	}
 	return out
@@ -344,7 +351,8 @@ func TestC07(t *testing.T) {
 		"{none, HBH, E2E, both, long both} x traffic class/flow id {0xb8/0xdead1, all ones, all zeros} x host address kinds {v4/v4, v6/v4, v4/v6, v6/v6, v6/SVC} x " +
 		"router-alert flags {4 combinations on the handled hops} x {no flags / all flags on the other hops}; quick: every axis fully at two anchor " +
 		"settings of the others; thorough: full product of payload x extension x hosts x alerts with traffic class/flow id cycling (pairwise with every axis); plus one-hop paths (first and second router) over every own interface x the same variations. " +
-		"distinct key = case+type+config+variation; non-trivial = all"
+		"long segments: every case also with each segment position in turn lengthened (foreign hop fields inserted behind the first / in front of the last hop of the segment) to 31, 32, 33, 48 and the maximum the 64-hop limit allows (<= 63), and with all segments long at once (64 hops), at three anchor variations (thorough: both insertion points and the quick axis sweep); " +
+		"distinct key = case+segment lengths+type+config+variation; non-trivial = all"
 	var nHarness atomic.Int64
 	harness := func(f string, a ...any) {
 		if nHarness.Add(1) <= 5 {
@@ -635,6 +643,7 @@ func TestC07(t *testing.T) {
 		"a packet with a consumable router alert that is not a traceroute request is handed on by the slow path: its bytes are judged by the same rule (where it is sent is not C07's subject); traceroute requests are answered, the answer is a new packet and not judged here",
 		"one-hop packets whose declared payload length disagrees with the datagram are judged only if the router forwards them",
 		"exact values of the pointers and SegIDs are C01/C22's subject; here only the set of bytes that may differ",
+		"of the 4-byte path meta header only the first byte (CurrINF, CurrHF) may change: the RSV bits and the three SegLen fields are immutable; explored with segment lengths up to 63 and 64 hops in total (the format's limits) in every segment position",
 	}
 	r.Finish(4)
 }
